@@ -221,7 +221,8 @@ Definition complete_body (F : faults) (attr : bool) (names : list nm) (s : state
   bind (visit F SScopeStack s) (fun s _ =>
   bind (visit F SDbLoad s) (fun s _ =>
   if attr then
-    match auto_import_body F names s with
+    (* auto_eval(pname, ...) builds a PythonBlock of the parent expression (parse), auto-imports, evaluates *)
+    match bind (visit F SParse s) (fun s _ => auto_import_body F names s) with
     | Ret s' _ => Ret s' ViaPyflyby
     | Raise s' e => if is_Exception e then Ret s' ViaPyflyby else Raise s' e
     end
@@ -289,35 +290,43 @@ Fixpoint transform_ast (F : faults) (names : list nm) (ts : list N) (s : state) 
 Definition interact_main (c : cell) (s : state) : state * cout :=
   let F := c_faults c in
   let names := c_names c in
-  let advised (j : jp) := is_advice (slot s j) in
-  let run_hook (j : jp) (h : state -> res unit) : state * cout :=
-    if advised j then
+  let run_hook (path0 : bool) (j : jp) (h : state -> res unit) (s : state) : state * cout :=
+    if is_advice (slot s j) then
       match h s with
       | Ret s' _ => (s', mkOut true None (all_bound names s') None)
       | Raise s' e => (s', mkOut true None false (Some e))
       end
-    else (s, mkOut false None (all_bound names s) None) in
+    else (s, mkOut path0 None (all_bound names s) None) in
   let run_compl (j : jp) (attr : bool) : state * cout :=
-    if advised j then
+    if is_advice (slot s j) then
       match hook_complete F attr names s with
       | Ret s' v => (s', mkOut true (Some v) (all_bound names s') None)
       | Raise s' e => (s', mkOut true None false (Some e))
       end
     else (s, mkOut false (Some ViaOriginal) (all_bound names s) None) in
+  (* the part every run_cell goes through; [cell_names] = the names the cell's own AST reads *)
+  let cell_phase (cell_names : list nm) : res bool :=
+    let resets := existsb ours (cleanup_l s) in
+    let s1 := if resets then reset_state_new_cell s else s in
+    bind (transform_ast F cell_names (ast_l s1) s1) (fun s' visited => Ret s' (resets || visited)) in
+  (* a magic: the cell is the magic's line (it reads no unknown name), then the magic calls the hooked function *)
+  let magic (j : jp) (h : state -> res unit) : state * cout :=
+    match cell_phase [] with
+    | Ret s' path0 => run_hook path0 j h s'
+    | Raise s' e => (s', mkOut true None false (Some e))
+    end in
   match c_act c with
   | ARunCell =>
-      let resets := existsb ours (cleanup_l s) in
-      let s1 := if resets then reset_state_new_cell s else s in
-      match transform_ast F names (ast_l s1) s1 with
-      | Ret s' visited => (s', mkOut (resets || visited) None (all_bound names s') None)
+      match cell_phase names with
+      | Ret s' path0 => (s', mkOut path0 None (all_bound names s') None)
       | Raise s' e => (s', mkOut true None false (Some e))
       end
-  | AInspect => run_hook JOfind (hook_given_ns F names)
+  | AInspect => run_hook false JOfind (hook_given_ns F names) s
   | ACompleteGlobal => run_compl JGlobalMatches false
   | ACompleteAttr => run_compl JAttrMatches true
-  | ARunFile => run_hook JExecfile (hook_execfile F names)
-  | APrun => run_hook JProfiler (hook_given_ns F names)
-  | ADebugStmt => run_hook JRunWithDebugger (hook_run_with_debugger F names)
+  | ARunFile => magic JExecfile (hook_execfile F names)
+  | APrun => magic JProfiler (hook_given_ns F names)
+  | ADebugStmt => magic JRunWithDebugger (hook_run_with_debugger F names)
   end.
 
 Definition interact (c : cell) (s : state) : state * cout :=
